@@ -7,7 +7,7 @@ cd "$(dirname "$0")/.."
 WT=$(mktemp -d /tmp/seedreg.XXXXXX)
 git -C /repo worktree add --detach "$WT" HEAD -q || exit 2
 trap 'git -C /repo worktree remove --force "$WT"' EXIT
-for d in seeded/S*; do
+for d in ${SEEDS:-seeded/S*}; do
   id=$(basename $d)
   git -C "$WT" checkout -q -- . ; git -C "$WT" clean -fdq
   if ! git -C "$WT" apply "$PWD/$d/patch.diff" 2>/dev/null; then echo "SKIP $id (patch does not apply to HEAD)"; continue; fi
